@@ -56,6 +56,11 @@ pub fn c01(ctx: &Ctx) -> Collector {
     run_space(&col, 16, &spaces::s_pair_ctx(ctx.tier.thorough()), &p, true, &no_extra);
     run_space(&col, 17, &spaces::s_order(ctx.tier.thorough()), &p, true, &no_extra);
     run_space(&col, 18, &s_len_utf8(ctx.tier.thorough()), &p, true, &no_extra);
+    run_space(&col, 19, &spaces::s_forced_dense(ctx.tier.thorough()), &p, true, &no_extra);
+    if ctx.tier.thorough() {
+        // the complete (length x forced version) triangle of C05, judged here for this property
+        run_space(&col, 21, &s_forced_versions(true), &p, true, &no_extra);
+    }
     seeded_supplement(ctx, &col, 20, &p, true);
     col
 }
@@ -243,6 +248,11 @@ pub fn c06(ctx: &Ctx) -> Collector {
     run_space(&col, 16, &spaces::s_pair_ctx(ctx.tier.thorough()), &p, true, &no_extra);
     run_space(&col, 17, &spaces::s_order(ctx.tier.thorough()), &p, true, &no_extra);
     run_space(&col, 18, &s_len_utf8(ctx.tier.thorough()), &p, true, &no_extra);
+    run_space(&col, 19, &spaces::s_forced_dense(ctx.tier.thorough()), &p, true, &no_extra);
+    if ctx.tier.thorough() {
+        // the complete (length x forced version) triangle of C05, judged here for this property
+        run_space(&col, 21, &s_forced_versions(true), &p, true, &no_extra);
+    }
     seeded_supplement(ctx, &col, 20, &p, true);
     col
 }
@@ -437,6 +447,7 @@ pub fn c10(ctx: &Ctx) -> Collector {
     run_space(&col, 23, &spaces::s_order(ctx.tier.thorough()), &p, false, &no_extra);
     run_space(&col, 25, &s_mixed_auto(if ctx.tier.thorough() { 64 } else { 48 }, ctx.tier.thorough()), &p, false, &no_extra);
     run_space(&col, 24, &s_len_utf8(ctx.tier.thorough()), &p, false, &no_extra);
+    run_space(&col, 26, &spaces::s_forced_dense(ctx.tier.thorough()), &p, false, &no_extra);
     seeded_supplement(ctx, &col, 20, &p, false);
     col
 }
